@@ -151,6 +151,8 @@ class Env:
         # are invoked directly) are followed; everything else (the user body, std::, the tasking layer) is a plain call
         self.inl = Inliner(tu, lambda cf: tu.fn_file(cf) == FILE)
         self.inl.expand = self.sy.expand
+        self.park_flags = None    # flags the loop thread has set on every path into wait() and clears only after it: reading one
+                                  # false while holding the mutex proves that the thread is not blocked
         self.alias_pol = {}       # call expression -> False when it returns the *negation* of the value whose tokens it carries
         self.fids = set()         # declarations that denote the user functor (constructor parameter + helper parameters)
         self.enabling = set()     # (field, value) stores that can turn a wait predicate true
@@ -537,6 +539,11 @@ def check_loop_closure(E, f, lam, op):
                 return outs
             if fld in (RUN, ALIVE):
                 found.und(R1, 'the loop thread itself writes %s: not modelled' % fld[1], node)
+                return [st]
+            if fld is not None and fld[0] == DATA:
+                # another flag written by the loop thread (e.g. "parked"): remember its last value on this path
+                bvals = frozenset({p for p in bvals if p[0] != ('P', fld)} | {(('P', fld), val)})
+                return [(pub, chk, toks, locks, known, obs, bvals)]
             return [st]
         if kind == 'load':
             _k, fld, order, node = ev
@@ -627,6 +634,8 @@ def check_loop_closure(E, f, lam, op):
     for ev, st, where in waits:
         _k, cv, lv, pred, flavour, node = ev
         pub, chk, toks, locks, known, obs, bvals = st
+        parked_here = {k_[1] for (k_, v) in bvals if isinstance(k_, tuple) and k_[0] == 'P' and v is True and k_[1] not in FLAGS}
+        E.park_flags = parked_here if E.park_flags is None else (E.park_flags & parked_here)
         if pub:
             found.viol(R2, CLOSURE, 'waits-while-published', 'the loop thread can block in %s() while insideLoopBody is still true: '
                        'stop() then spins until the next start()' % flavour, node, where=where)
@@ -657,7 +666,7 @@ def check_loop_closure(E, f, lam, op):
                     found.viol(R3, CLOSURE, 'predicate-ignores-' + ALIVE[1], 'the thread can block in wait(lock) without having seen '
                                'threadShouldBeAlive == true under the mutex: a destructor that already ran is not noticed and '
                                'join never returns', node, where=where)
-                E.enabling |= {(fl, not v) for (fl, v) in obs}
+                E.enabling |= {(fl, not v) for (fl, v) in obs if fl in FLAGS}
             continue
         pe = predicate_enabling(E, pred)
         if pe is None:
@@ -792,15 +801,22 @@ def check_signals(E, f, label, fnkey):
     found = Found(E.inl)
     cur = {}
     nstores = set()
+    park = E.park_flags or set()
 
-    # state: (locks, known, owe, nscope)
+    # state: (locks, known, owe, nscope, cs, toks)
+    #   owe: (flag name, critical section number) of predicate-enabling stores still waiting for their notify; cs: number of
+    #   the current / last critical section of runningMutex; toks: (load node or local, park flag, cs) = value of a "parked"
+    #   flag (set by the loop thread under the mutex before every wait) read in that critical section
     def transfer(blk, i, e, st):
         if i == 0:
             cur['at'] = (blk.id, st)
-        locks, known, owe, nscope = st
+        locks, known, owe, nscope, cs, toks = st
         ev = sy.event(e)
+        n = tu.node(e[1]) if e[0] == 'S' else None
         if ev is None:
-            return [st]
+            if n is not None:
+                toks = local_copy(tu, n, toks)
+            return [(locks, known, owe, nscope, cs, toks)]
         kind = ev[0]
         if kind in ('locks', 'unlock-scope', 'lk-unlock', 'lk-lock', 'm-lock', 'm-unlock', 'lk-other', 'm-other'):
             locks2, known, prob = LockState.apply(locks, known, ev)
@@ -808,7 +824,11 @@ def check_signals(E, f, label, fnkey):
                 found.und(R3, prob, tu.node(e[1]) if e[0] == 'S' else None)
             if LockState.holds(locks2, MTX) != LockState.holds(locks, MTX):
                 nscope = False
-            return [(locks2, known, owe, nscope)]
+                if LockState.holds(locks2, MTX):
+                    cs = min(cs + 1, 6)
+            return [(locks2, known, owe, nscope, cs, toks)]
+        if kind == 'load' and ev[1] in park and LockState.holds(locks, MTX):
+            return [(locks, known, owe, nscope, cs, addtoks(toks, ev[3]['id'], {(ev[3]['id'], ev[1], cs)}))]
         if kind == 'store':
             _k, fld, val, order, node = ev
             vals = (True, False) if val is None else (val,)
@@ -819,8 +839,8 @@ def check_signals(E, f, label, fnkey):
                                'but is made outside a lock scope of %s: it can fall between the waiter\'s predicate test and its '
                                'blocking, and the notify is lost' % (fld[1], str(val).lower(), MTX[1]), node)
                 if not (nscope and LockState.holds(locks, MTX)):
-                    owe = frozenset(set(owe) | {fld[1]})
-            return [(locks, known, owe, nscope)]
+                    owe = frozenset(set(owe) | {(fld[1], cs if LockState.holds(locks, MTX) else -1)})
+            return [(locks, known, owe, nscope, cs, toks)]
         if kind == 'notify':
             if ev[1] == CV:
                 if getattr(E, 'cv_shared', False) is True and last(tu.sd(ev[2]).get('q')) == 'notify_one':
@@ -829,22 +849,39 @@ def check_signals(E, f, label, fnkey):
                                'instance\'s thread, which re-checks its own predicate and sleeps again; this loop is not woken - '
                                'start() is not seen within bounded time, the destructor hangs in join(). Use notify_all() or '
                                'per-instance state', ev[2])
-                return [(locks, known, frozenset(), nscope or LockState.holds(locks, MTX))]
+                return [(locks, known, frozenset(), nscope or LockState.holds(locks, MTX), cs, toks)]
             return [st]
         return [st]
 
-    res, outs = E.inl.explore(f, [(frozenset(), frozenset(), frozenset(), False)], transfer, None, C03Hooks(E, found, R3))
+    def refine(blk, si, st):
+        atom, truth = sy.edge_truth(blk, si)
+        tid = atom_token(tu, atom)
+        if tid is None:
+            return [st]
+        truth = E.tok_truth(tid, truth)
+        locks, known, owe, nscope, cs, toks = st
+        for t in toks:
+            if t[0] == tid and not truth:
+                # "nobody is parked", read in critical section t[2]: a store made in that same critical section needs no notify -
+                # a waiter that has not blocked yet evaluates its predicate under the mutex after this section and sees the store
+                owe = frozenset(o for o in owe if o[1] != t[2])
+        return [(locks, known, owe, nscope, cs, toks)]
+
+    res, outs = E.inl.explore(f, [(frozenset(), frozenset(), frozenset(), False, 0, frozenset())], transfer, refine,
+                              C03Hooks(E, found, R3, toks_idx=5))
     for (st, _rv, via) in outs:
         if g.blocks[via].noret:
             continue
-        for fld in sorted(st[2]):
+        for fld in sorted({o[0] for o in st[2]}):
             ents = [k for k in res.pred if k[0] == via]
             found.viol(R3, fnkey, 'no-notify-after-' + fld, 'a path stores %s (which can turn the wait predicate true) and returns '
                        'without notify on %s: the sleeping loop thread is not woken' % (fld, CV[1]), None, ents[0] if ents else None)
     if nstores or found.v or found.u:
         E.count(R3, max(1, len(nstores)))
         emit(ctx, tu, g, res, found, '%s [%s]' % (label, tu.config), (R3,), tu.fn_loc(f),
-             {R3: '%d predicate-enabling store(s), each under %s and notified' % (len(nstores), MTX[1])})
+             {R3: '%d predicate-enabling store(s), each under %s and notified%s'
+                  % (len(nstores), MTX[1], ' (or skipped only after reading %s == false in the same critical section)'
+                     % '/'.join(sorted(p_[1] for p_ in park)) if park else '')})
     return len(nstores)
 
 
@@ -1664,6 +1701,18 @@ def check_tu(ctx, tu):
         for lam, op in cl:
             check_loop_closure(E, f, lam, op)
     check_stop(E)
+    if E.park_flags:
+        loop_ids = set()
+        for f, cl in per_ctor:
+            for lam, op in cl:
+                loop_ids |= {x['id'] for x in E.inl.reachable_fns(op)}
+        for fn2 in tu.functions.values():
+            if fn2['dep'] or tu.cfg(fn2) is None or tu.fn_file(fn2) != FILE or fn2['id'] in loop_ids:
+                continue
+            for _b, _i, n in tu.cfg(fn2).stmts():
+                a = E.sy.atomic_op(n)
+                if a is not None and a['op'] in ('store', 'rmw') and a['field'] in E.park_flags:
+                    E.park_flags = E.park_flags - {a['field']}     # also written by the controller: says nothing about the waiter
     # 2. predicate-enabling stores, everywhere
     n = 0
     n += check_signals(E, E.start, 'AsyncLoop::start', 'AsyncLoop::start')
